@@ -574,11 +574,9 @@ func r09c(c *core.Ctx) {
 			if strings.HasSuffix(core.CallName(call), "dnsmsg.Msg).Pack") {
 				sz := call.Common().Args[3]
 				ok := false
-				if p, isPhi := sz.(*ssa.Phi); isPhi {
-					for i, e := range p.Edges {
-						if k, isC := core.ConstInt(e); isC && k == 65535 && hasCond(p.Block().Preds[i], "(size > 65535)", true) {
-							ok = true
-						}
+				if inner, lim, isClamp := upperClamp(sz); isClamp {
+					if k, isC := core.ConstInt(lim); isC && k == 65535 {
+						_, ok = core.Strip(inner).(*ssa.Parameter)
 					}
 				}
 				c.Check(ok, "packResp-clamp", call.Pos(), pr, "packResp clamps the limit to 65535", core.Expr(sz))
